@@ -135,6 +135,10 @@ class Project(MessageHandler):
         self.outputDir: str = "./"
         self.warnTsDeltas: bool = False
 
+    def __deepcopy__(self, memo: dict[int, Any]) -> "Project":
+        """The project is shared by everything that refers to it (limits, working hours, ...)."""
+        return self
+
     def _define_scenario_attributes(self) -> None:
         attrs: list[list[Any]] = [
             ["active", "Enabled", BooleanAttribute, True, False, False, True],
